@@ -81,8 +81,12 @@ class Lib:
     def compare(self, ex, st, op, a, b, node):
         an = isinstance(a.t, TSeq) and a.t.kind == "nd"
         bn = isinstance(b.t, TSeq) and b.t.kind == "nd"
-        if (an or bn) and not st.spec and not isinstance(op, (ast.In, ast.NotIn, ast.Is, ast.IsNot)):
-            return self.elementwise2(ex, st, op, a, b, node)
+        if (an or bn) and not isinstance(op, (ast.In, ast.NotIn, ast.Is, ast.IsNot)):
+            # in specifications `a == b` on two arrays is value equality; array-against-scalar has no such reading
+            # and is numpy's element-wise comparison there too
+            scalar_other = (an != bn) and (b if an else a).t in (INT, REAL, BOOL)
+            if not st.spec or scalar_other:
+                return self.elementwise2(ex, st, op, a, b, node)
         return None
 
     def elementwise1(self, ex, st, a, f, elem):
@@ -449,8 +453,13 @@ class Lib:
         if skey not in st.seen:
             st.seen.add(skey)
             ex.assume(st, rt.len(r.z) == n_len)
-            ex.assume(st, z3.ForAll([j], z3.Implies(z3.And(0 <= j, j < n_len), rt.arr(r.z)[j] == val.z),
-                                    patterns=[rt.arr(r.z)[j]]))
+            body = z3.Implies(z3.And(0 <= j, j < n_len), rt.arr(r.z)[j] == val.z)
+            pats = [rt.arr(r.z)[j]]
+            if not st.binders:
+                # also defined wherever the source element is mentioned (under outer binders the source term need
+                # not contain every bound variable, so it cannot serve as a pattern there)
+                pats.append(xs.t.arr(xs.z)[j])
+            ex.assume(st, z3.ForAll([j], body, patterns=pats))
         return r
 
     # ---------------------------------------------------------------- calls
@@ -873,7 +882,56 @@ class Lib:
     def b_max(self, ex, st, node):
         return self._minmax(ex, st, node, False)
 
+    def _pairs_of_enumerate(self, ex, st, node):
+        """enumerate(map(itemgetter(k), xs)) / enumerate(xs) -> the value sequence, or None"""
+        if not (isinstance(node, ast.Call) and isinstance(node.func, ast.Name) and node.func.id == "enumerate"
+                and len(node.args) == 1 and not node.keywords):
+            return None
+        inner = node.args[0]
+        if isinstance(inner, ast.Call) and isinstance(inner.func, ast.Name) and inner.func.id == "map" and \
+                len(inner.args) == 2:
+            g = inner.args[0]
+            if isinstance(g, ast.Call) and ast.unparse(g.func).split(".")[-1] == "itemgetter" and \
+                    len(g.args) == 1 and isinstance(g.args[0], ast.Constant) and isinstance(g.args[0].value, int):
+                k = g.args[0].value
+                xs = ex.ev(st, inner.args[1])
+                if isinstance(xs.t, TSeq) and isinstance(xs.t.elem, TTuple):
+                    et = xs.t.elem.elems[k]
+                    xa = xs.t.arr(xs.z)
+                    col = ex.new_seq(st, et, ex.seq_len(xs), lambda j: xs.t.elem.get(xa[j], k), "list", "col")
+                    jj = ex.bvar("cj")
+                    # the projected column is also defined wherever the source element is mentioned
+                    ex.assume(st, z3.ForAll([jj], z3.Implies(z3.And(0 <= jj, jj < ex.seq_len(xs)),
+                                                             col.t.arr(col.z)[jj] == xs.t.elem.get(xa[jj], k)),
+                                            patterns=[xa[jj]]))
+                    return col
+            return None
+        xs = ex.ev(st, inner)
+        return xs if isinstance(xs.t, TSeq) else None
+
     def _minmax(self, ex, st, node, is_min):
+        kw = {k.arg: k.value for k in node.keywords}
+        if len(node.args) == 1 and set(kw) == {"key"} and isinstance(kw["key"], ast.Call) and \
+                ast.unparse(kw["key"].func).split(".")[-1] == "itemgetter" and len(kw["key"].args) == 1 and \
+                isinstance(kw["key"].args[0], ast.Constant) and kw["key"].args[0].value == 1:
+            vals = self._pairs_of_enumerate(ex, st, node.args[0])
+            if vals is not None and vals.t.elem in (INT, REAL):
+                # max(enumerate(vals), key=itemgetter(1)): the FIRST pair (i, vals[i]) with an extremal value
+                n = ex.seq_len(vals)
+                va = vals.t.arr(vals.z)
+                g = z3.And(*(st.guards + [n == 0])) if st.guards else (n == 0)
+                st.pending_exc.append((g, "ValueError"))
+                idx = ex.fresh_z("argext", z3.IntSort())
+                j = ex.bvar("mm")
+                better = (lambda a, b: a < b) if is_min else (lambda a, b: a > b)
+                ex.assume(st, z3.Implies(n > 0, z3.And(0 <= idx, idx < n)))
+                ex.assume(st, z3.ForAll([j], z3.Implies(z3.And(0 <= j, j < n), z3.Not(better(va[j], va[idx]))),
+                                        patterns=[va[j]]))
+                ex.assume(st, z3.ForAll([j], z3.Implies(z3.And(0 <= j, j < idx), better(va[idx], va[j])),
+                                        patterns=[va[j]]))
+                ex.used_lib.add("max/min(enumerate(xs), key=itemgetter(1)): the first (index, value) pair whose value "
+                                "is extremal; ValueError on an empty sequence")
+                return SV(TPy("pytuple"), py=[SV(INT, idx), SV(vals.t.elem, va[idx])])
         if len(node.args) == 2 and not node.keywords:
             a, b = ex.ev(st, node.args[0]), ex.ev(st, node.args[1])
             x, y, t = ex.unify_num(a, b)
